@@ -1796,6 +1796,15 @@ class BaseEvolutionOperations(object):
                 cursor.close()
 
             for index_name, info in six.iteritems(constraints):
+                if ((info.get('foreign_key') or info.get('check')) and
+                    not info.get('index') and
+                    not info.get('unique') and
+                    not info.get('primary_key')):
+                    # This is purely a foreign key or check constraint, with
+                    # no index backing it. It must not be mistaken for an
+                    # index on those columns.
+                    continue
+
                 results[index_name] = {
                     'unique': info.get('unique', False),
                     'columns': info.get('columns', []),
